@@ -21,8 +21,8 @@ _COMMON_NOTE = ('ASSUMED (never counted as proved, listed in evidence.trusted_ba
                 'pure-mathematics lemmas about the specification functions (inj_image, two counting facts, the prefix principle and '
                 'its converse, two edit-distance facts: DESIGN.md 0.4). '
                 'also assumed: CPython builtins used by the code (dict, list.index, sorted / list.sort as stable key-ordered permutations, zip). '
-                'BOUNDED stand-in (exhaustive small scope + seeded random on the real code, evidence.bounded_standins): the completeness '
-                'half of PositionFilter.find_candidates (its soundness half is proved). '
+                'BOUNDED stand-ins (exhaustive small scope + seeded random on the real code, evidence.bounded_standins): the completeness '
+                'half of PositionFilter.find_candidates and the never-drops half of PositionFilter.filter_pair (their soundness halves are proved). '
                 'Scope: all six *_join_py entry points, set_sim_join, InvertedIndex / OverlapFilter, SizeIndex / SizeFilter, '
                 'PrefixIndex / PrefixFilter (find_candidates, filter_tables), PositionIndex / PositionFilter (filter_tables), '
                 'Filter.filter_candset, apply_matcher. Not under contract (their part of the property is not decided by this check): '
